@@ -284,6 +284,18 @@ theorem export_channel_variadic (base : Env) (dotenv : List (String × String)) 
   rw [he] at this
   exact recipeEnv_param base dotenv se un outer sc _ _ this
 
+/-- **quote channel**: `{{quote(p)}}` for a singular parameter given the word `w` is one shell word
+equal to `w` — the third channel composed from the binding and `quote_one_word` -/
+theorem quote_channel_singular (qs : List NParam) (ws bound : List String) (sc : Scope) (pos : List String)
+    (h : evalParams qs ws bound = some (sc, pos))
+    (i : Nat) (hq : i < qs.length) (hw : i < ws.length)
+    (hsing : ∀ j (hj : j < qs.length), j ≤ i → (qs[j]).p.isVariadic = false) :
+    ∃ hs : i < sc.length, shSplit (quote (sc[i]).value.toList) = some [(ws[i]).toList] := by
+  obtain ⟨hs, he⟩ := evalParams_singular qs ws bound sc pos i hq hw h hsing
+  refine ⟨hs, ?_⟩
+  rw [he]
+  exact quote_one_word _
+
 /-- the values the three channels deliver are the ones C05 binds -/
 theorem channels_bind_what_C05_binds (qs : List NParam) (ws bound : List String) (sc : Scope)
     (pos : List String) (h : evalParams qs ws bound = some (sc, pos)) :
